@@ -1777,8 +1777,10 @@ verify_changed(VB* self, PyObject* ignored)
 {
     PyObject *t, *ro;
 
-    VB_clear(self);
-
+    /* Find out what we are going to be consistent with *before* the
+       caches are dropped: reading the generations may run Python code,
+       and nothing that gets cached -- or changed -- while it runs may
+       end up covered by the generations we record. */
     t = PyObject_GetAttr(OBJECT(self), str_registry);
     if (t == NULL)
         return NULL;
@@ -1806,6 +1808,7 @@ verify_changed(VB* self, PyObject* ignored)
         return NULL;
     }
 
+    LB_clear((LB*)self);
     Py_XSETREF(self->_verify_generations, t);
     Py_XSETREF(self->_verify_ro, ro);
 
